@@ -55,7 +55,7 @@ Clauses(r) ==
       [] r.k = "asblock"  -> << <<"as_block smoother = block smoother on the block matrix", r.same \/ r.reldiff_md <= -12000>> >>
       [] r.k = "forms"    -> << <<"every block formulation solves the scalar system truthfully and all agree", Len(r.forms) >= 2 /\ FormsOK(r)>> >>
       [] r.k = "cforms"   -> << <<"complex system (scalar / block value type) and its real form have the same solution", Len(r.forms) >= 2 /\ FormsOK(r)>> >>
-      [] r.k = "mixed"    -> << <<"float preconditioner under double solver reaches the default tolerance",
+      [] r.k = "mixed"    -> << <<"float preconditioner under double solver reaches the tolerance with a truthful residual",
                                      r.iters < r.maxiter /\ r.reported_md <= r.tol_md /\ r.true_md <= r.tol_md + 1000>> >>
       [] OTHER            -> << <<"unknown-record", FALSE>> >>
 
